@@ -10,7 +10,8 @@ THEOREMS = ["Genql.C19." + t for t in [
     "vf_fail_fails", "where_fault_propagates", "no_partial_result",
     "strict_step", "strict_in_error", "where_nested_fault_propagates", "select_nested_fault_propagates", "derived_fault_propagates",
     "from_error_select", "union_fault_propagates", "subquery_error", "cte_fault_propagates", "nestedRun_on_error",
-    "exists_error", "in_subquery_error", "sortRows_key_error"]] + ["Genql.Obligations.C19.errors_not_swallowed"]
+    "exists_error", "in_subquery_error", "sortRows_key_error",
+    "sumLoop_notNumeric", "minLoop_notNumeric", "numeric_aggregate_type_error", "changetype_double_notNumeric"]] + ["Genql.Obligations.C19.errors_not_swallowed"]
 TRUSTED = ["the go/ast detector of error-swallowing shapes is syntactic (three shapes)", "sqlparser"]
 RULE = ("queries with a fault-injecting function in every clause position (WHERE, select list, HAVING, CTE body, derived table, "
         "row-scoped sub-query, union branch, IN sub-query, EXISTS, ON of sequential and PARALLEL joins with partner-less keys), "
@@ -278,3 +279,8 @@ LEVEL_TEXT = ("Lean theorems about the model: every loop of the engine (filter l
 LEVEL_NOTE = ("Faults inside ASYNC/SPIN calls are C14/C13 territory (the property is about synchronously evaluated steps). The "
               "'usable afterwards' clause rests on C11 (input unchanged) and is additionally exercised on the implementation.")
 TECHNIQUE = "Lean 4 proof (error propagation by induction over each loop) + complete per-query fault enumeration against the model"
+
+# the text of the functions this property's model mirrors is a regenerated fact (Obligations/PinC19: closed by rfl)
+FACTS = True
+LEAN_TARGETS = list(LEAN_TARGETS) + ["Genql.Obligations.PinC19"]
+THEOREMS = list(THEOREMS) + ["Genql.Obligations.PinC19.pinned_text"]
